@@ -8,21 +8,23 @@ Section Inc.
 Variable rules : key -> rule.
 Variable env : key -> N.
 Variable F : key -> N -> list value -> list N -> N -> N.
-Notation rowok := (rowok rules F).
-Notation concl := (concl rules F).
-Notation BC := (BC rules F).
+Variable R : key -> N -> rule.
+Notation rowok := (rowok F R).
+Notation concl := (concl F R).
+Notation BC := (BC rules F R).
 
 (* a conclusion is about the values stored for the recorded inputs only *)
-Lemma concl_same_gen s s' k v : (forall x, In (mkDep x false false) (deps s k) -> In (mkDep x false false) (deps s' k) /\ stored s' x = stored s x) ->
+Lemma concl_same_gen s s' k v : res_sig (res_of s' k) = res_sig (res_of s k) ->
+  (forall x, In (mkDep x false false) (deps s k) -> In (mkDep x false false) (deps s' k) /\ stored s' x = stored s x) ->
   concl s k v -> concl s' k v.
 Proof.
-  intros Hs [Hf Hrec]. unfold ImplInc1.concl in *. cbn zeta in *.
-  assert (Hreq : map (stored s') (r_req (rules k)) = map (stored s) (r_req (rules k))).
+  intros Hsg Hs [Hf Hrec]. unfold ImplInc1.concl, rule_of in *. cbn zeta in *. rewrite Hsg. set (rl := R k (res_sig (res_of s k))) in *.
+  assert (Hreq : map (stored s') (r_req rl) = map (stored s) (r_req rl)).
   { apply map_ext_in. intros x Hx. apply Hs, Hrec. apply in_or_app. now left. }
-  rewrite Hreq. set (bk := branch_keys (rules k) (map (stored s) (r_req (rules k)))) in *.
+  rewrite Hreq. set (bk := branch_keys rl (map (stored s) (r_req rl))) in *.
   assert (Hbk : map (stored s') bk = map (stored s) bk).
   { apply map_ext_in. intros x Hx. apply Hs, Hrec. apply in_or_app. right. apply in_or_app. now left. }
-  assert (Hdc : map (fun d => snd (payload_of (stored s' d))) (r_disc (rules k)) = map (fun d => snd (payload_of (stored s d))) (r_disc (rules k))).
+  assert (Hdc : map (fun d => snd (payload_of (stored s' d))) (r_disc rl) = map (fun d => snd (payload_of (stored s d))) (r_disc rl)).
   { apply map_ext_in. intros x Hx. destruct (Hs x) as [_ ->]; auto. apply Hrec. apply in_or_app. right. apply in_or_app. now right. }
   rewrite Hbk, Hdc. split; auto. intros x Hx. apply Hs, Hrec, Hx.
 Qed.
@@ -37,12 +39,13 @@ Proof.
   intros Hr H (v & Hv & Ho & Hm & Hc).
   assert (Ed : deps s' k = deps s k) by (unfold deps; now rewrite Hr).
   assert (Eb : bAt s' k = bAt s k) by (unfold bAt; now rewrite Hr).
-  exists v. split; [unfold stored; now rewrite Hr|]. split; [exact Ho|]. split; [rewrite Ed; exact Hm|].
+  assert (Erl : rule_of R s' k = rule_of R s k) by (unfold rule_of; now rewrite Hr).
+  exists v. split; [unfold stored; now rewrite Hr|]. split; [rewrite Erl; exact Ho|]. split; [rewrite Ed, Erl; exact Hm|].
   intros Hf'.
   assert (Hsame : forall d, In d (deps s k) -> d_order d = false -> d_single d = false -> stored s' (d_key d) = stored s (d_key d) /\ cAt s (d_key d) <= bAt s k).
   { intros d Hd Ho' Hs'. pose proof (Hf' d) as Hx. rewrite Ed, Eb in Hx. specialize (Hx Hd Ho' Hs'). destruct (H d Hd Ho' Hs') as [[E1 E2]|E]; [split; auto; lia|lia]. }
   assert (Hco : concl s k v) by (apply Hc; intros d Hd Ho' Hs'; apply (Hsame d Hd Ho' Hs')).
-  apply (concl_same_gen s s' k v); auto. intros x Hx. rewrite Ed. split; auto. now apply (Hsame (mkDep x false false)).
+  apply (concl_same_gen s s' k v); auto; [now rewrite Hr|]. intros x Hx. rewrite Ed. split; auto. now apply (Hsame (mkDep x false false)).
 Qed.
 
 Lemma curk_same s s' k : res_of s' k = res_of s k -> kind_of s' k = kind_of s k -> is_epoch s' = is_epoch s -> (curk s' k <-> curk s k).
@@ -61,13 +64,12 @@ Proof. unfold is_in_progress. now intros ->. Qed.
 (* rules in progress (the set X) change their result; every other rule keeps result and state kind *)
 Lemma BC_change (X : key -> bool) s s' : is_epoch s' = is_epoch s -> (forall k, ri_cancelled (rinfo_of s' k) = false) ->
   (forall k, X k = false -> res_of s' k = res_of s k /\ kind_of s' k = kind_of s k) ->
-  (forall k, X k = true -> unsettled s k /\ is_in_progress s' k = true /\ bAt s' k = bAt s k /\
-                    (bAt s' k <> 0 -> res_sig (res_of s' k) = r_sig (rules k))) ->
+  (forall k, X k = true -> unsettled s k /\ is_in_progress s' k = true /\ bAt s' k = bAt s k) ->
   (forall k, X k = true -> (stored s' k = stored s k /\ cAt s' k = cAt s k) \/ cAt s' k = is_epoch s) ->
   (forall x, pending_dummy s x -> pending_dummy s' x \/ is_in_progress s' x = true \/ curk s' x) ->
   BC s -> BC s'.
 Proof.
-  intros He Hnc H1 H2 H3 Hpd [C1 C2 C3 C4 C5 C6 C7].
+  intros He Hnc H1 H2 H3 Hpd [C1 C2 C3 C4 C6 C7].
   assert (Hidle : forall k, idle s' k -> X k = false).
   { intros k Hi. destruct (X k) eqn:Hx; auto. destruct (H2 k Hx) as (_ & Hp & _). exfalso. now apply (in_progress_not_idle s' k Hp). }
   assert (Hcur : forall k, X k = false -> (curk s' k <-> curk s k)).
@@ -85,14 +87,11 @@ Proof.
   - exact Hnc.
   - intros k Hi. pose proof (Hidle k Hi) as Hx. destruct (H1 k Hx) as [Hr Hk]. unfold cAt, bAt. rewrite Hr. apply C2. unfold idle in *. now rewrite <- Hk.
   - intros k. rewrite He. destruct (X k) eqn:Hx.
-    + destruct (H2 k Hx) as (_ & _ & Hb & _). rewrite Hb. split; [apply C3|]. destruct (H3 k Hx) as [[_ E]|E]; [rewrite E; apply C3|rewrite E; lia].
+    + destruct (H2 k Hx) as (_ & _ & Hb). rewrite Hb. split; [apply C3|]. destruct (H3 k Hx) as [[_ E]|E]; [rewrite E; apply C3|rewrite E; lia].
     + destruct (H1 k Hx) as [Hr _]. unfold cAt, bAt. rewrite Hr. apply C3.
   - intros k. rewrite He. destruct (X k) eqn:Hx.
-    + destruct (H2 k Hx) as ((_ & _ & Hp) & _ & Hb & _). rewrite Hb. intros Hbe. exfalso. apply Hp. now apply C4.
+    + destruct (H2 k Hx) as ((_ & _ & Hp) & _ & Hb). rewrite Hb. intros Hbe. exfalso. apply Hp. now apply C4.
     + destruct (H1 k Hx) as [Hr Hk]. unfold bAt. rewrite Hr, Hk. apply C4.
-  - intros k. destruct (X k) eqn:Hx.
-    + now destruct (H2 k Hx) as (_ & _ & _ & Hs).
-    + destruct (H1 k Hx) as [Hr _]. unfold bAt. rewrite Hr. apply C5.
   - intros k Hi Hb Hnc'. pose proof (Hidle k Hi) as Hx. destruct (H1 k Hx) as [Hr Hk].
     assert (Hi0 : idle s k) by (unfold idle in *; now rewrite <- Hk).
     assert (Hb0 : bAt s k <> 0) by (unfold bAt in *; now rewrite <- Hr).
@@ -103,11 +102,11 @@ Proof.
     right. rewrite H. destruct (C3 k) as [Hle _]. destruct (N.eq_dec (bAt s k) (is_epoch s)) as [Eb|Eb]; [|lia].
     exfalso. apply Hnc0. split; [now apply C4|exact Eb].
   - intros k Hc. pose proof (HcurX k Hc) as Hx. destruct (H1 k Hx) as [Hr Hk]. apply (Hcur k Hx) in Hc.
-    destruct (C7 k Hc) as (S1 & S2 & S3). unfold cstruct in *. cbn zeta in *.
+    destruct (C7 k Hc) as (S0 & S1 & S2 & S3). unfold cstruct in *. cbn zeta in *.
     assert (Ed : deps s' k = deps s k) by (unfold deps; now rewrite Hr).
     assert (Hreq : map (stored s') (r_req (rules k)) = map (stored s) (r_req (rules k))).
     { apply map_ext_in. intros x Hx'. destruct (S1 x) as [_ Hcx]; [apply in_or_app; now left|]. destruct (H1 _ (HcurX0 _ Hcx)) as [Hrx _]. unfold stored. now rewrite Hrx. }
-    rewrite Hreq, Ed. split; [|split].
+    rewrite Hreq, Ed, Hr. split; [exact S0|]. split; [|split].
     + intros x Hx'. destruct (S1 x Hx') as [Hin Hcx]. split; auto.
     + exact S2.
     + intros d Hd. destruct (S3 d Hd) as [Hm Hst]. split; auto. destruct Hst as [Hcd|(Hdd & [Hp|Hp])]; [left; auto| |].
@@ -116,11 +115,11 @@ Proof.
 Qed.
 
 Variable rank : key -> nat.
-Notation BS := (BS rules env F rank).
+Notation BS := (BS rules env F rank R).
 
-Lemma concl_same s s' k v : deps s' k = deps s k -> (forall x, In (mkDep x false false) (deps s k) -> stored s' x = stored s x) ->
-  concl s k v -> concl s' k v.
-Proof. intros Ed Hs. apply concl_same_gen. intros x Hx. rewrite Ed. auto. Qed.
+Lemma concl_same s s' k v : res_sig (res_of s' k) = res_sig (res_of s k) -> deps s' k = deps s k ->
+  (forall x, In (mkDep x false false) (deps s k) -> stored s' x = stored s x) -> concl s k v -> concl s' k v.
+Proof. intros Hsg Ed Hs. apply concl_same_gen; auto. intros x Hx. rewrite Ed. auto. Qed.
 
 Lemma BS_change (X : key -> bool) x s s' : is_epoch s' = is_epoch s ->
   (forall k, X k = false -> res_of s' k = res_of s k /\ kind_of s' k = kind_of s k) ->
@@ -144,13 +143,13 @@ Proof.
     destruct (H1 _ Hx) as [Hr _]. unfold deps, bAt in *. rewrite Hr in *. destruct (S1 rq Hrq0 j d Hj Hn) as [Hc Hf].
     destruct (Hcur _ Hc) as [Hc' Hrd]. split; auto. unfold cAt. now rewrite Hrd.
   - intros k Hk. assert (Hx : X k = false) by (apply HX'; now left). destruct (H1 k Hx) as [Hr Hkk]. rewrite Hkk in Hk.
-    destruct (S2 k Hk) as (B1 & B2 & B3). unfold bAt. rewrite Hr. repeat split; auto.
+    destruct (S2 k Hk) as (B0 & B1 & B2 & B3). unfold bAt. rewrite Hr. repeat split; auto.
     destruct B3 as [B3|[B3|B3]]; [| |now right; right]; (destruct (Hrec k Hk) as [H|H]; [tauto|now left|right; now left]).
   - intros k Hk. assert (Hx : X k = false) by (apply HX'; right; now left). destruct (H1 k Hx) as [Hr Hkk]. rewrite Hkk in Hk.
-    destruct (S3 k Hk) as ((v & Hv & Hcv & Hco) & Hd & Hb & Hpe).
+    destruct (S3 k Hk) as ((v & Hv & Hcv & Hco) & Hd & Hb & Hpe & Hsg0).
     assert (Ed : deps s' k = deps s k) by (unfold deps; now rewrite Hr).
-    split; [|split; [|split]].
-    + exists v. split; [unfold stored; now rewrite Hr|]. split; auto. apply (concl_same s s' k v Ed); auto.
+    split; [|split; [|split; [|split]]]; [| | | |now rewrite Hr].
+    + exists v. split; [unfold stored; now rewrite Hr|]. split; auto. apply (concl_same s s' k v (f_equal res_sig Hr) Ed); auto.
       intros y Hy. destruct (Hcur _ (Hd _ Hy)) as [_ Hry]. unfold stored. cbn [d_key] in Hry. now rewrite Hry.
     + intros d Hin. rewrite Ed in Hin. now apply Hcur, Hd.
     + unfold bAt. now rewrite Hr.
